@@ -10,8 +10,13 @@ RULE = ("cases cycle through all 21 (ExchangeId, SubKind) arms of DynamicStreams
         "some for unsubscribed symbols). A third of the cases (every third round over the 21 pairs) subscribe through the engine's indexed-stream "
         "instrument type MarketInstrumentData<usize> (the third Identifier<Market> impl of every connector: name_exchange VERBATIM; `@<name>:<kind>` tokens): "
         "the name is the venue's symbol for the underlying (70 %), that symbol in the wrong case (15 %) or ANOTHER venue's symbol for the same underlying (15 %); "
-        "messages then name the venue's symbol or the subscribed name. Real WebSocketSubMapper::map (over Subscription<E, Keyed<usize, MarketDataInstrument>, K> "
-        "or Subscription<E, MarketInstrumentData<usize>, K>), real serde types on synthesised JSON, real Transformer::transform. "
+        "messages then name the venue's symbol or the subscribed name. A quarter of the remaining (formatted) cases - every fourth formatted round over the 21 pairs - "
+        "subscribe the plain UN-KEYED MarketDataInstrument (the first Identifier<Market> impl of every connector, the README form; `=<base>:<quote>:<kind>` tokens): the "
+        "instrument map is a Map<MarketDataInstrument> and every event key is the instrument itself, printed canonically. Real WebSocketSubMapper::map (over "
+        "Subscription<E, Keyed<usize, MarketDataInstrument>, K>, Subscription<E, MarketInstrumentData<usize>, K> or Subscription<E, MarketDataInstrument, K>), synthesised JSON "
+        "through THE TRANSFORMER THE REPOSITORY BINDS to the pair: the harness projects the transformer type out of <E as StreamSelector<Instrument, Kind>>::Stream "
+        "(= ExchangeWsStream<T>) and drives T's ExchangeTransformer::init, serde into T's own associated Transformer::Input type, and T's Transformer::transform - it names neither "
+        "the transformer nor the venue message type (all 21 pairs x 3 instrument types, the Binance L2 transformers included). "
         "A case is distinct by the SHA-1 of its op lines and non-trivial when the implementation's trace shows at least two different "
         "observation blocks")
 ASSUMPTIONS = [
@@ -30,8 +35,13 @@ ASSUMPTIONS = [
     "(its seconds-as-f64 timestamps are then exact); the sign of PublicTrade.amount is not constrained by the spec (see LEVEL_NOTE): it is an "
     "observation (`amt`, `sgn`) compared between code and model only; theorem amount_sign_convention states the convention per connector",
     "verbatim path (MarketInstrumentData): the supplied name_exchange IS the venue symbol as far as the property is concerned (the user supplies it; nothing "
-    "normalises it: lowercase_verbatim_name_is_rejected); a `sub` line is all-formatted or all-verbatim (one Rust subscription list has one instrument type; "
-    "the theorems cover arbitrary mixtures)",
+    "normalises it: lowercase_verbatim_name_is_rejected); a `sub` line is all-formatted, all-verbatim or all-un-keyed (one Rust subscription list has one instrument type; "
+    "the theorems cover arbitrary mixtures of formatted and verbatim)",
+    "un-keyed path (plain MarketDataInstrument, key = the instrument): the spec demands the subscribed instrument itself as the event key, with base / quote lower-cased "
+    "(asset names are case-insensitive: AssetNameInternal); the same instrument subscribed twice is one instrument (the key is determined), two DIFFERENT instruments with "
+    "one venue symbol leave the key open as on the keyed paths",
+    "which connector TYPE and which kind value belong to a (name, kind) pair of the op protocol is still the harness's table (21 lines); the arm bodies of DynamicStreams::init "
+    "are C13V's subject (audit finding C13-H3)",
 ]
 SOURCE_FILES = [
     "barter-data/src/subscriber/mapper.rs", "barter-data/src/transformer/stateless.rs", "barter-data/src/exchange/subscription.rs",
@@ -51,6 +61,11 @@ SOURCE_FILES = [
     "barter-data/src/exchange/bitfinex/trade.rs", "barter-data/src/exchange/bitfinex/market.rs",
     "barter-instrument/src/asset/name.rs", "barter-instrument/src/instrument/name.rs",
     "barter-data/src/instrument.rs", "barter-data/src/streams/builder/dynamic/indexed.rs",
+    "barter-data/src/lib.rs", "barter-data/src/exchange/mod.rs", "barter-data/src/exchange/binance/mod.rs", "barter-data/src/exchange/binance/spot/mod.rs",
+    "barter-data/src/exchange/binance/futures/mod.rs", "barter-data/src/exchange/bitfinex/mod.rs", "barter-data/src/exchange/bitmex/mod.rs",
+    "barter-data/src/exchange/bybit/mod.rs", "barter-data/src/exchange/coinbase/mod.rs", "barter-data/src/exchange/kraken/mod.rs", "barter-data/src/exchange/okx/mod.rs",
+    "barter-data/src/exchange/gateio/spot/mod.rs", "barter-data/src/exchange/gateio/future/mod.rs", "barter-data/src/exchange/gateio/perpetual/mod.rs",
+    "barter-data/src/exchange/gateio/option/mod.rs", "barter-instrument/src/instrument/market_data/mod.rs",
     "barter-data/src/exchange/bitfinex/channel.rs", "barter-data/src/exchange/bitmex/channel.rs", "barter-data/src/exchange/bybit/channel.rs",
     "barter-data/src/exchange/coinbase/channel.rs", "barter-data/src/exchange/kraken/channel.rs", "barter-data/src/exchange/okx/channel.rs",
 ]
@@ -67,7 +82,9 @@ def signature(ops, k, key, impl_line, spec_line):
         cls = "unsubscribed-market"
     elif "unidentifiable" in impl_line or impl_line.startswith("nev 1"):
         cls = "subscribed-market-rejected"
-    rep = " rep=verbatim" if any(t.startswith("@") for t in sub[3:]) else ""
+    rep = " rep=verbatim" if any(t.startswith("@") for t in sub[3:]) else (" rep=unkeyed" if any(t.startswith("=") for t in sub[3:]) else "")
+    if impl_line.startswith("deser-error"):
+        cls = "message-not-deserialised"
     return f"clause={clause} connector={exch} kind={kind} input={cls}{rep}"
 
 
@@ -86,12 +103,17 @@ LEVEL_TEXT = ("Proof. Lean theorems (lean/BarterModel/Props/C13.lean) over the e
               "subscriptionIdR, mapOfR, venueSymbolR, specVerdictR) restricted to formatted instruments is the old one (formatted_is_the_old_path); market_is_venue_symbol_verbatim "
               "(identity), market_is_venue_symbol_rep, payload_id_agrees_rep, attributed_rep, rejected_rep, rejected_never_event_rep, refines_spec_rep, bitfinex_*_rep over lists of "
               "either representation (any mixture); verbatim_agrees_with_formatted (names = venue symbols of the underlyings => same ids, same map, same transform); witnesses "
-              "lowercase_verbatim_name_is_rejected / other_venue_verbatim_name_is_rejected (nothing normalises a verbatim name). amount_sign_convention / events_amount_sign: per "
+              "lowercase_verbatim_name_is_rejected / other_venue_verbatim_name_is_rejected (nothing normalises a verbatim name). The THIRD representation, un-keyed "
+              "Subscription<_, MarketDataInstrument, _> (key = the instrument; Map<MarketDataInstrument> = UMap, mapOfU, transformU): canon_same_market / unkeyed_same_id (the un-keyed "
+              "path subscribes under exactly the ids of the keyed path), unkeyed_map_is_keyed_map (the un-keyed map is the positional map with every position replaced by the "
+              "instrument subscribed there, for every list, duplicates and colliding ids included), unkeyed_conf (Bitfinex re-keying preserves that), unkeyed_transform (for every "
+              "message the un-keyed result is the positional result with the instrument in place of the position), attributed_unkeyed, rejected_unkeyed. amount_sign_convention / events_amount_sign: per "
               "connector which sign PublicTrade.amount carries (Bitfinex abs; Gateio futures/perpetuals/options signed; others as stated). All full strength; "
               "hypotheses: pairwise distinct ids / venue symbols, builder-accepted instrument kinds (refinement only), non-empty batch where the id is read off "
               "the first trade, '|' not in a payload-supplied channel, Bitfinex confirmations with distinct symbols and distinct channel ids.")
 LEVEL_NOTE = ("Trusted: Lean kernel; axioms propext/Classical.choice/Quot.sound only; the hand-written model (tied by sampled correspondence: 420 quick / 10.5k "
-              "thorough cases over all 21 pairs through the real WebSocketSubMapper::map, the real serde types and the real Transformer::transform); the venue "
+              "thorough cases over all 21 pairs and all three instrument representations through the real WebSocketSubMapper::map and the transformer + input message type the "
+              "repository itself binds in each connector's `impl StreamSelector` (type-level projection, not a harness table); the name -> connector type table of the harness); the venue "
               "table of the spec (from the repository's fixtures and doc comments); harness and driver. serde glue is exercised, not proved. Bitfinex's "
               "channel-id re-keying is driven by constructing the post-validation instrument map directly (same two statements as the validator's Subscribed "
               "arm, on a really deserialised BitfinexPlatformEvent) - no loop-back websocket. Binance L2 only as a first update on a fresh transformer. "
